@@ -114,7 +114,9 @@ contract(TB, 'TypeBlocks._blocks_to_array',
     ghost_params=dict(offs='list[int]'),
     lenient=True, lenient_protect=['pos', 'end'],
     requires=['len(offs) == len(blocks) + 1 and at(offs, 0) == 0',
-              'forall_in(0, len(blocks), lambda k: at(offs, k + 1) == at(offs, k) + W(at(blocks, k)) and (at(blocks, k).ndim == 1 or at(blocks, k).ndim == 2))'],
+              'forall_in(0, len(blocks), lambda k: at(offs, k + 1) == at(offs, k) + W(at(blocks, k)) and (at(blocks, k).ndim == 1 or at(blocks, k).ndim == 2))',
+              # the output is allocated from `shape`: its column count is the total width of the blocks (a wider output would keep uninitialised columns)
+              'implies(len(blocks) != 1, shape[1] == at(offs, len(blocks)))'],
     raises={'Exception': 'maybe'},
     n_loops=1,
     loops={0: dict(index='t', locals=dict(pos='int'), invariant=['pos == at(offs, t)'])},
@@ -169,3 +171,27 @@ contract(TB, 'TypeBlocks.axis_values', key='TypeBlocks.axis_values[columns]',
               f'implies(at(self._blocks, at(self._index, {_COLJ})[0]).ndim == 2, not same_array(result, at(self._blocks, at(self._index, {_COLJ})[0])) or W(result) == 1)'],
     yield_update=['j = j + 1'],
     at_exit=['j == len(self._index)'])
+
+# Frame / Series extraction to an array: a single column is the view the directory names; otherwise the selected block slices are assembled under
+# their own running widths (`columns` is the total width handed to the assembly, ghost `offs2` its prefix vector).
+contract(TB, 'TypeBlocks._extract_array',
+    props=['C04', 'C03', 'C13'],
+    params=dict(self='TypeBlocks', row_key='opt[int]', column_key='opt[int]'), order=['self', 'row_key', 'column_key'], result='arr',
+    variants=[dict(column_key='int'), dict(column_key='opt[slice]')],
+    requires=['Dir(self)', 'is_none(row_key)'],      # whole columns (the row key is applied by NumPy indexing, outside the model)
+    requires_variant={0: ['-len(self._index) <= column_key and column_key < len(self._index)']},
+    raises={'Exception': 'maybe'},
+    calls={'self._slice_blocks': dict(assumed=True, params={}, order=[], is_generator=True, yield_sort='arr',
+                                      ensures=['forall_in(0, len(result), lambda k: at(result, k).ndim == 1 or at(result, k).ndim == 2)']),
+           'resolve_dtype_iter': dict(assumed=True, params={}, order=['dtypes'], result='opt[dtype]', ensures=[])},
+    call_ghosts={'TypeBlocks._blocks_to_array': dict(offs='offs2')},
+    ghost_init=['offs2 = [0]'],
+    ghost_after={'blocks.append(b)': ['offs2.append(columns)']},
+    n_loops=1,
+    loops={0: dict(index='t', locals=dict(blocks='list[arr]', rows='int', columns='int', offs2='list[int]'), ghost_mods=['offs2'],
+                   invariant=['len(blocks) == t and len(offs2) == t + 1 and at(offs2, 0) == 0 and columns == at(offs2, t)',
+                              'forall_in(0, len(blocks), lambda k: at(offs2, k + 1) == at(offs2, k) + W(at(blocks, k)) and (at(blocks, k).ndim == 1 or at(blocks, k).ndim == 2))'])},
+    ensures_variant={0: ['cond(at(self._blocks, at(self._index, cond(column_key < 0, column_key + len(self._index), column_key))[0]).ndim == 1, '
+                         'same_array(result, at(self._blocks, at(self._index, cond(column_key < 0, column_key + len(self._index), column_key))[0])), '
+                         'result.ndim == 1 and result.src == at(self._blocks, at(self._index, cond(column_key < 0, column_key + len(self._index), column_key))[0]).src and '
+                         'result.off == at(self._blocks, at(self._index, cond(column_key < 0, column_key + len(self._index), column_key))[0]).off + at(self._index, cond(column_key < 0, column_key + len(self._index), column_key))[1])']})
